@@ -32,6 +32,15 @@ theorem size_run (bounds : Nat → R) (fuel : Nat) (k : Int) (ops : List (Op R))
   obtain ⟨a, b⟩ := run_ok bounds fuel k ops hops
   rw [Tree.size, a.count, ← b.length_eq]; simp [ids]
 
+/-- `Reorganize` sends a node to the outside list when the new root rectangle does not `Contains` it (possible only
+    when the float union was rounded).  `abs_run` and the query theorems hold whatever that guard decides; in exact
+    arithmetic it always holds: the union of all bounds contains each stored node -/
+theorem reorganize_guard_exact (bounds : Nat → R) (fuel : Nat) (k : Int) (ops : List (Op R))
+    (hops : ∀ op ∈ ops, OpOK bounds op) :
+    let t := Tree.run fuel k ops
+    ∀ it ∈ t.all, L.contains (t.all.foldl (fun r one => L.union r one.rect) L.zero) it.rect = true :=
+  QT.reorganize_guard_exact bounds _ (run_ok bounds fuel k ops hops).1
+
 /-- the general form behind the eight `Find*` theorems: a traversal whose node test `pr` is implied by "an item
     satisfying `f` is contained in the node" returns, as a multiset of ids, the linear scan of the specification -/
 theorem find_spec (bounds : Nat → R) (fuel : Nat) (k : Int) (ops : List (Op R)) (hops : ∀ op ∈ ops, OpOK bounds op)
@@ -181,13 +190,12 @@ theorem split_terminates_int (threshold fuel : Nat) (n : Node (Rect Int)) (it : 
   have := depth_le_meas _ a (by rw [b]; exact hr)
   rw [b] at this; exact this
 
-/-- the same over a whole `Reorganize`: the root built by inserting any list of items into the fresh leaf is no deeper
-    than `W + H` of the union rectangle -/
+/-- the same over a whole `Reorganize`: the root built by the re-insertion loop from the fresh leaf is no deeper than
+    `W + H` of the new root rectangle -/
 theorem reorganize_depth_int (threshold fuel : Nat) (rect : Rect Int) (hr : rect.empty = false)
     (items : List (Item (Rect Int))) :
-    (items.foldl (fun n one => Node.insert threshold fuel n one) (Node.leaf rect [])).depth ≤ (rect.w + rect.h).toNat := by
-  obtain ⟨a, b⟩ := fold_good (Node.insert threshold fuel) (insert_good threshold fuel) items (Node.leaf rect [])
-    trivial hr
+    (items.foldl (Tree.reorgStep rect threshold fuel) (Node.leaf rect [], [])).1.depth ≤ (rect.w + rect.h).toNat := by
+  obtain ⟨a, b⟩ := reorgFold_good rect threshold fuel items (Node.leaf rect [], []) trivial rfl hr
   have := depth_le_meas _ a (by rw [b]; exact hr)
   rw [b] at this; exact this
 
